@@ -75,6 +75,50 @@ class _Equiv(ast.NodeTransformer):
         return n
 
 
+def _uses(node, name) -> int:
+    return sum(1 for n in ast.walk(node) if isinstance(n, ast.Name) and n.id == name)
+
+
+def _simplify_stmts(stmts):
+    """value-preserving rewrites on a statement list (applied before normalisation):
+       x = []; for t in it: x.append(e)      ->   x = [e for t in it]        (the loop does nothing else, no else:)
+       x = E; return R (x used once in R)    ->   return R[x := E]            (x is a temporary introduced for readability)
+    nested statement lists are rewritten too"""
+    out = []
+    for st in stmts:
+        for field in ("body", "orelse", "finalbody"):
+            if isinstance(getattr(st, field, None), list) and not isinstance(st, ast.FunctionDef):
+                setattr(st, field, _simplify_stmts(getattr(st, field)))
+        prev = out[-1] if out else None
+        if isinstance(st, ast.For) and not st.orelse and len(st.body) == 1 and isinstance(prev, (ast.Assign, ast.AnnAssign)):
+            tgt = prev.targets[0] if isinstance(prev, ast.Assign) and len(prev.targets) == 1 else getattr(prev, "target", None)
+            b = st.body[0]
+            if isinstance(tgt, ast.Name) and isinstance(prev.value, ast.List) and not prev.value.elts \
+                    and isinstance(b, ast.Expr) and isinstance(b.value, ast.Call) and dotted(b.value.func) == tgt.id + ".append" \
+                    and len(b.value.args) == 1 and not b.value.keywords and _uses(b.value.args[0], tgt.id) == 0 \
+                    and _uses(st.iter, tgt.id) == 0:
+                out[-1] = ast.Assign(targets=[ast.Name(id=tgt.id, ctx=ast.Store())], value=ast.ListComp(
+                    elt=b.value.args[0], generators=[ast.comprehension(target=st.target, iter=st.iter, ifs=[], is_async=0)]))
+                continue
+        if isinstance(st, ast.Return) and st.value is not None and isinstance(prev, ast.Assign) and len(prev.targets) == 1 \
+                and isinstance(prev.targets[0], ast.Name) and _uses(st.value, prev.targets[0].id) == 1 \
+                and sum(_uses(o, prev.targets[0].id) for o in out[:-1]) == 0:
+            name, val = prev.targets[0].id, prev.value
+
+            class Sub(ast.NodeTransformer):
+                def visit_Name(self, n):
+                    return val if n.id == name and isinstance(n.ctx, ast.Load) else n
+            # only when the temporary is evaluated first in R anyway or R's other parts are names/attributes (no reordering
+            # of effects): accept calls whose other arguments are plain names
+            others_plain = all(isinstance(n, (ast.Name, ast.Attribute, ast.Call, ast.Load, ast.Constant, ast.keyword))
+                               for n in ast.walk(st.value)) and sum(isinstance(n, ast.Call) for n in ast.walk(st.value)) == 1
+            if others_plain:
+                out[-1] = ast.Return(value=Sub().visit(st.value))
+                continue
+        out.append(st)
+    return out
+
+
 def canon(nodes) -> str:
     """dump of the statements after vlib.py2v's normalisation (docstrings, comments, annotations, typing.cast, logging
     statements and `pass` removed, local variables alpha-renamed) and the value-preserving rewrites of _Equiv: two
@@ -84,10 +128,11 @@ def canon(nodes) -> str:
     if len(nodes) == 1 and isinstance(nodes[0], ast.FunctionDef):
         fn = nodes[0]
         fn.name, fn.decorator_list = "_f", []
+        fn.body = _simplify_stmts(fn.body)
         norm = py2v.normalize_func(fn, rename_params=True)
     else:
         fn = ast.FunctionDef(name="_f", args=ast.arguments(posonlyargs=[], args=[], kwonlyargs=[], kw_defaults=[], defaults=[]),
-                             body=nodes or [ast.Pass()], decorator_list=[], returns=None, type_comment=None)
+                             body=_simplify_stmts(nodes) or [ast.Pass()], decorator_list=[], returns=None, type_comment=None)
         norm = py2v.normalize_func(fn)
     norm = _Equiv().visit(norm)
     return ast.dump(norm, include_attributes=False)
